@@ -177,6 +177,11 @@ class Facts:
     def fn(self, key):
         f = self.fns.get(key)
         if f is None:
+            # a private helper asked for by its role name (vlib/roles.py): found by signature, whatever it is called today
+            from . import roles
+
+            if key in roles.ROLES or key in ("scheme::escape_string", "scheme::target_scheme::escape_template"):
+                return self.fns[roles.key(self, key)]
             raise AnchorMissing("function %s" % key)
         return f
 
